@@ -1194,7 +1194,108 @@ m = r.sub == p.sub && fn(r.obj, p.obj) && keyMatch(r.act, p.act)
             script.append(["check", j])
             if not check(j):
                 return out
+    # a function registered again under the same name AFTER the enforcer has decided requests replaces the old one at once
+    for _ in range(2):
+        k = rng.randrange(len(enfs))
+        e, fk, kk = enfs[k]
+        fk2 = rng.choice([x for x in sorted(fns) if x != fk])
+        e.add_function("fn", fns[fk2])
+        kk2 = rng.choice(sorted(kms))
+        if kms[kk2] is not None:
+            e.add_function("keyMatch", kms[kk2])
+        else:
+            kk2 = kk  # a built-in cannot be un-registered: keep what is there
+        enfs[k] = (e, fk2, kk2)
+        script.append(["re-register", k, fk2, kk2])
+        for j in range(len(enfs)):
+            script.append(["check", j])
+            if not check(j):
+                return out
     return out
+
+
+EVAL_G_TEXT = """[request_definition]
+r = sub, obj, act
+r2 = sub, obj, act
+[policy_definition]
+p = sub_rule, obj, act
+p2 = sub_rule, obj, act
+[role_definition]
+g = _, _
+[policy_effect]
+e = some(where (p.eft == allow))
+e2 = some(where (p.eft == allow))
+[matchers]
+m = %s
+m2 = eval(p2.sub_rule) && r2.obj == p2.obj && r2.act == p2.act
+"""
+
+
+def _eval_g_worker(scenario):
+    """a role function that occurs only inside a rule-supplied sub-expression spliced in by eval(): the rule takes part
+    exactly when the sub-expression is true, with g bound to the current role assignments (fresh enforcer per scenario:
+    nothing else has bound g before)"""
+    c = cas()
+    which, m_text = scenario
+    e = c.Enforcer(c.Enforcer.new_model(text=EVAL_G_TEXT % m_text))
+    G = [["alice", "admin"], ["admin", "root"], ["bob", "staff"]]
+    for u, r in G:
+        e.add_grouping_policy(u, r)
+    reach = {u: {u} for u in ("alice", "bob", "carol", "admin", "root", "staff")}
+    changed = True
+    while changed:
+        changed = False
+        for u, r in G:
+            for x in reach:
+                if u in reach[x] and r not in reach[x]:
+                    reach[x].add(r)
+                    changed = True
+    rules = [['g(r.sub, "admin")', "data1", "read"], ['g(r.sub, "root") && r.sub != "admin"', "data2", "read"], ['r.sub == "carol" || g(r.sub, "staff")', "data3", "read"]]
+    rules2 = [[x[0].replace("r.sub", "r2.sub"), x[1], x[2]] for x in rules]
+    e.model.model["p"]["p"].policy = [list(r) for r in rules]
+    e.model.model["p"]["p2"].policy = [list(r) for r in rules2]
+
+    def truth(sub, k):
+        if k == 0:
+            return "admin" in reach[sub]
+        if k == 1:
+            return "root" in reach[sub] and sub != "admin"
+        return sub == "carol" or "staff" in reach[sub]
+
+    out = {"evals": 0, "viol": []}
+    ctx2 = e.new_enforce_context("2")
+    order = [("m2", (ctx2,)), ("m", ())] if which == "context-first" else [("m", ()), ("m2", (ctx2,))]
+    if which == "eval-only":
+        order = [("m", ())]
+    for name, pre in order:
+        for sub in ("alice", "bob", "carol", "admin"):
+            for k, (_, obj, act) in enumerate(rules):
+                exp = truth(sub, k)
+                try:
+                    got = e.enforce(*pre, sub, obj, act)
+                except Exception as ex:  # noqa
+                    got = f"{type(ex).__name__}: {str(ex)[:60]}"
+                out["evals"] += 1
+                if name == "m" and not m_text.startswith("eval("):
+                    continue  # m calls g directly with the rule's first field as a role name: only used to bind g first / later
+                if got != exp:
+                    out["viol"].append({"signature": "C02:eval-rolefn", "stream": "evalg", "scenario": list(scenario),
+                                        "what": f"scenario {which} (m = {m_text!r}), matcher {name}: request ({sub}, {obj}, {act}) with the rule sub-expression {rules[k][0]!r} is decided {got}; the sub-expression is {exp} under the current role assignments",
+                                        "expected": exp, "observed": got})
+                    return out
+    return out
+
+
+def run_eval_rolefn(ctx, res, pool):
+    scenarios = [("eval-only", "eval(p.sub_rule) && r.obj == p.obj && r.act == p.act"),
+                 ("context-first", "g(r.sub, p.sub_rule) && r.obj == p.obj"),
+                 ("plain-first", "g(r.sub, p.sub_rule) && r.obj == p.obj"),
+                 ("context-first", "eval(p.sub_rule) && r.obj == p.obj && r.act == p.act")]
+    for out in pool.imap_unordered(_eval_g_worker, scenarios, chunksize=1):
+        res.evaluations += out["evals"]
+        res.count("stream:eval-rolefn", out["evals"])
+        for v in out["viol"]:
+            res.violation(v)
 
 
 def run_function_isolation(ctx, res, pool):
@@ -1213,6 +1314,7 @@ def run(ctx):
     mp = multiprocessing.get_context("fork")
     with mp.Pool(NPROC, maxtasksperchild=1) as pool:
         run_function_isolation(ctx, res, pool)
+        run_eval_rolefn(ctx, res, pool)
     with mp.Pool(NPROC) as pool:
         run_char_level(ctx, res, pool)
         run_end_to_end(ctx, res, pool)
@@ -1235,6 +1337,8 @@ def run(ctx):
 
 
 def replay(obj):
+    if obj.get("stream") == "evalg":
+        return bool(_eval_g_worker(tuple(obj["scenario"]))["viol"])
     if obj.get("stream") == "isolation":
         return bool(_iso_worker(obj["seed"])["viol"])
     if obj.get("stream") == "rolefn":
